@@ -276,13 +276,13 @@ Proof.
   rewrite Hc in H. binv H. rewrite E0.
   destruct a0 as [[gd off]|].
   - binv H. destruct gd as [td | pd | inf].
-    + binv H. injection H as <-. apply complete_type_shape.
-    + binv H. now apply complete_procedure_shape.
+    + binv H. injection H as <-. exact (complete_type_shape _ _ _ _).
+    + binv H. exact (complete_procedure_shape _ _ _ _ _ H).
     + injection H as <-. apply global_shape.
   - destruct (last (map Some (pg_decls (d_ast d))) None) as [[[td | pd | inf] off]|];
       try (injection H as <-; apply global_shape).
     binv H. binv H. destruct (last (map Some a1) None) as [lt|]; [|injection H as <-; apply global_shape].
-    destruct (is_semic (tk lt)); injection H as <-; [apply global_shape | apply complete_type_shape].
+    destruct (is_semic (tk lt)); injection H as <-; [apply global_shape | exact (complete_type_shape _ _ _ _)].
 Qed.
 
 Lemma get_local_table_spec pd g lt :
